@@ -31,6 +31,7 @@ import (
 	"github.com/conduitio/conduit/pkg/foundation/cerrors/conduiterr"
 	"github.com/conduitio/conduit/pkg/foundation/log"
 	"github.com/conduitio/conduit/pkg/foundation/metrics"
+	"github.com/conduitio/conduit/pkg/foundation/verifhook"
 	"github.com/conduitio/conduit/pkg/plugin"
 	"github.com/sourcegraph/conc/pool"
 )
@@ -918,6 +919,7 @@ func (w *Worker) doNextTask(ctx context.Context, taskNode *TaskNode, b *Batch, a
 
 func (w *Worker) Ack(ctx context.Context, batch *Batch) error {
 	originalBatch := batch.originalBatch()
+	verifhook.Point("funnel.worker.ack")
 
 	// Invariant 2: positions are monotonic and crash-safe. connector.Source.Ack
 	// persists State.Position = p[len(p)-1] unconditionally, so handing it an
@@ -975,6 +977,7 @@ func validateAckPositions(positions []opencdc.Position) error {
 
 func (w *Worker) Nack(ctx context.Context, batch *Batch, taskID string) error {
 	originalBatch := batch.originalBatch()
+	verifhook.Point("funnel.worker.nack")
 	n, err := w.DLQ.Nack(ctx, originalBatch, taskID)
 	if n > 0 {
 		// Successfully nacked n records, let's ack them, as they reached
@@ -1378,6 +1381,7 @@ func (m *multiAckNacker) indexOf(pos opencdc.Position) (int, error) {
 // parent.Ack once ALL m.branches have voted ack for it.
 func (m *multiAckNacker) Ack(ctx context.Context, batch *Batch) error {
 	ob := batch.originalBatch()
+	verifhook.Point("funnel.multiack.ack")
 
 	m.mu.Lock()
 	defer m.mu.Unlock()
@@ -1418,6 +1422,7 @@ func (m *multiAckNacker) Ack(ctx context.Context, batch *Batch) error {
 // as a failure of the whole record, never partially acked.
 func (m *multiAckNacker) Nack(ctx context.Context, batch *Batch, taskID string) error {
 	ob := batch.originalBatch()
+	verifhook.Point("funnel.multiack.nack")
 
 	m.mu.Lock()
 	defer m.mu.Unlock()
